@@ -215,7 +215,12 @@ func gen(rt *rapid.T) (trial.Trial, bool) {
 	// same small alphabet with different arguments (value corruption through shared caches is not a data race)
 	if rapid.IntRange(0, 3).Draw(rt, "hammer") == 0 {
 		tr.Reps = rapid.SampledFrom([]int{2000, 20000}).Draw(rt, "hammerreps")
-		names := []string{rapid.SampledFrom([]string{"Adapt", "ToXYZ", "Primaries", "From8To8", "From16", "To16", "LineariseColor", "EncodeColor", "DecodeTyped"}).Draw(rt, "hammerop")}
+		hammerLoads := false
+		names := []string{rapid.SampledFrom([]string{"Adapt", "ToXYZ", "Primaries", "From8To8", "From16", "To16", "LineariseColor", "EncodeColor", "DecodeTyped", "LoadFamily", "LoadFamily"}).Draw(rt, "hammerop")}
+		if names[0] == "LoadFamily" {
+			tr.Reps, hammerLoads = 300, true
+		}
+		_ = hammerLoads
 		for g := range tr.Goroutines {
 			tr.Goroutines[g] = []trial.Op{genOp(rt, names), genOp(rt, names)}
 		}
